@@ -184,6 +184,59 @@ CHECKS = {
         note="Process-crash model (no fsync reordering); one recorded run "
         "per history; replay fidelity checked byte for byte on every run.",
         design="DESIGN.md section 3 C06, section 2 E4"),
+    "C12": dict(
+        engine="grid",
+        technique="exhaustive enumeration of the option grid (k x predicate "
+        "x per-metadata limit x interface x format) against an executable "
+        "reference of the documented meaning",
+        text="Datasets with 5-6 shards in metadata groups, fb/npz/tfrec: "
+        "every shards k in 1..S+1, 5 predicates (none/some/all/by group/"
+        "unlabelled), type limit 1,2,>group, every interface that accepts "
+        "the option (sync, concurrent, async, Rust, tf.data); single "
+        "options against the documented meaning, combinations across "
+        "interfaces, empty selections must raise.",
+        note="combinations: only agreement between interfaces is required.",
+        design="DESIGN.md section 3 C12"),
+    "C16": dict(
+        engine="grid+choice",
+        technique="exhaustive grid (file size x content x ordered algorithm "
+        "tuple) against independent one-shot digests, plus enumeration of "
+        "all short-read patterns of the read loop (environment answers, "
+        "deviation bounded)",
+        text="16-19 sizes around every multiple of the 128 KiB buffer x 4 "
+        "contents x 187 tuples (all singles, all 169 ordered pairs, both "
+        "orders of all 13, repetitions, empty); published vectors; every "
+        "pattern of <=2 (3) short readinto answers; every digest recorded "
+        "in 5 real datasets re-derived from the bytes.",
+        note="reference = hashlib / one-shot xxhash API.",
+        design="DESIGN.md section 3 C16"),
+    "C17": dict(
+        engine="paths",
+        technique="exhaustive enumeration of path strings (all component "
+        "sequences up to length 3/4 over a 6-letter alphabet, absolute and "
+        "relative, separator variants, canary paths) x path-valued fields, "
+        "observed with audit hooks + inotify",
+        text="For every string in every path-valued field (shard path, "
+        "child list path, split list path, relative_path_self, filler "
+        "sub-directory): open, check, every iterator, a writing session; "
+        "nothing outside the dataset root may be opened, created or "
+        "changed (Python audit events, inotify on the outside directory "
+        "for Rust/tf.data, directory diff).",
+        note="symbolic links out of scope.",
+        design="DESIGN.md section 3 C17"),
+    "C20": dict(
+        engine="grid",
+        technique="exhaustive enumeration of three small-scope grids "
+        "(descriptions, relocations, version triples) with executable "
+        "oracles",
+        text="Descriptions: every compression x format, covering family of "
+        "checksum tuples, all JSON values of depth<=2 over 13 atoms at "
+        "dataset/attribute/shard level, unicode/control texts. "
+        "Relocation: copy/move x 6 target names x 5 ways of opening, then "
+        "check, iterate, two further sessions + full recount. Version "
+        "gate: all triples around the running version + suffixes.",
+        note="finite JSON numbers only.",
+        design="DESIGN.md section 3 C20"),
 }
 
 NOT_YET = "check not built yet in this session (planned, see DESIGN.md section 3)"
